@@ -477,12 +477,15 @@ structure Reg where
 def Reg.args (r : Reg) (s : Slot) (ev : Str) (args : List J) : List J :=
   if ev = sDisconnect && r.legacy s then args.dropLast else args
 
-/-- `_get_event_handler` (an event literally named `'*'` is never an exact match, /repo 6dcbd32),
-    then `_get_namespace_handler` + `trigger_event` -/
+/-- `_get_event_handler` (an event literally named `'*'` is never an exact event match, /repo
+    6dcbd32; a namespace literally named `'*'` is never an exact namespace match, /repo 74a0887:
+    `if namespace != '*' and namespace in self.handlers`), then `_get_namespace_handler`
+    (`if namespace != '*' and namespace in self.namespace_handlers … elif '*' in …`) + `trigger_event` -/
 def Reg.resolve (r : Reg) (n : Ns) (ev : Str) (args : List J) : Option (Slot × List J) :=
   let res := reserved.contains ev
   let viaNs : Option (Slot × List J) :=
-    if ev ≠ star && r.fn n ev then some (⟨false, n, ev⟩, args)
+    if n == star then none
+    else if ev ≠ star && r.fn n ev then some (⟨false, n, ev⟩, args)
     else if !res && r.fn n star then some (⟨false, n, star⟩, .str ev :: args)
     else none
   let viaFn : Option (Slot × List J) := match viaNs with
@@ -494,7 +497,7 @@ def Reg.resolve (r : Reg) (n : Ns) (ev : Str) (args : List J) : Option (Slot × 
   match viaFn with
   | some (s, a) => some (s, r.args s ev a)
   | none =>
-    if r.cls n then
+    if n != star && r.cls n then
       if r.method n ev then some (⟨true, n, ev⟩, r.args ⟨true, n, ev⟩ ev args) else none
     else if r.cls star then
       if r.method star ev then
